@@ -411,6 +411,11 @@ def _late_bound_constants(ctx):
     from .c05 import r7_late_bound_constants
     r7_late_bound_constants(ctx)   # format constants are read through cls / self so that subclass formats keep their own
 
+def _index_forwarding(ctx):
+    from .c05 import r6_index_forwarding
+    with ctx.only("__getitem__"):          # a selection that is written back must select what NumPy would select
+        r6_index_forwarding(ctx)
+
 RULES = [
     ("C04-R6", r6_lazy_derivations),
     ("C04-R1", r1_pass_through),
@@ -427,4 +432,5 @@ RULES = [
     ("C04-R11", _lazy_concatenate),
     ("C04-R12", _shared_tables_not_written),
     ("C04-R13", _late_bound_constants),
+    ("C04-R14", _index_forwarding),
 ]
